@@ -41,6 +41,7 @@ type directedCase struct {
 	Seed    int64  `json:"seed"`
 	NetV    bool   `json:"netv"`
 	Backend int    `json:"backend"`
+	Kind    int    `json:"kind"` // 0: Notify held over a join, 1: stabilize round held over a join
 }
 
 func runDirected(raw json.RawMessage) (any, error) {
@@ -53,7 +54,12 @@ func runDirected(raw json.RawMessage) (any, error) {
 	for _, c := range cases {
 		prog.Begin(c.Name, c)
 		out := batch.CaseResult{Name: c.Name}
-		d := ringlab.RunNotifyHeldOverJoin(c.Seed, c.NetV, ringlab.Backend(c.Backend))
+		var d *ringlab.DirectedResult
+		if c.Kind == 1 {
+			d = ringlab.RunStabilizeHeldOverJoin(c.Seed, c.NetV)
+		} else {
+			d = ringlab.RunNotifyHeldOverJoin(c.Seed, c.NetV, ringlab.Backend(c.Backend))
+		}
 		if d.Setup != "" {
 			// the schedule could not be built this time (e.g. the leave itself repaired the pointer): nothing judged
 			rep.Count("directed_schedules_not_constructed", 1)
@@ -69,7 +75,7 @@ func runDirected(raw json.RawMessage) (any, error) {
 				nw++
 			}
 			out.Sig = fmt.Sprintf("directed/%s/netv=%v/backend=%d/windows=%d", d.Name, c.NetV, c.Backend, nw)
-			rep.Count("directed_schedules_constructed(notify held over a join)", 1)
+			rep.Count("directed_schedules_constructed("+d.Name+")", 1)
 			out.Sample = map[string]any{"schedule": d.Name, "windows_reached": d.Windows, "pred_of_S_at_end": d.PredAtEnd, "trace": d.Trace}
 		}
 		for _, f := range d.Findings {
@@ -152,7 +158,7 @@ func main() {
 	child.Register("directed", runDirected)
 	child.Main()
 	r := ev.Start("C04", "exploration")
-	r.SetRule("executions of real rings with 3-6 multi-writer clients over 2-4 keys issuing all seven KV operations (unique put values) through random entry nodes while 1-3 goroutines join and leave nodes, seeded delays at the chord hook points (around key transfer, state changes and between lookup and lock); after quiescence every key is read from every live node (appended to the history); distinct+non-trivial = hash of the interleaving of membership hook events across nodes, and separately the set of kinds of membership operations whose windows overlapped ({join,leave} x {join,leave} x ring distance adjacent / one node between / farther, with or without a failed attempt), for executions with a completed join/leave and a non-empty checked history; plus directed hook-ordered schedules: after a leave the first Notify reaching the successor is held between its ping and its apply while a second Notify repairs the pointer and a node joins in between, then released (the predecessor pointer must not move back; a write through the successor for a key of the joiner must be visible through its neighbours)")
+	r.SetRule("executions of real rings with 3-6 multi-writer clients over 2-4 keys issuing all seven KV operations (unique put values) through random entry nodes while 1-3 goroutines join and leave nodes, seeded delays at the chord hook points (around key transfer, state changes and between lookup and lock); after quiescence every key is read from every live node (appended to the history); distinct+non-trivial = hash of the interleaving of membership hook events across nodes, and separately the set of kinds of membership operations whose windows overlapped ({join,leave} x {join,leave} x ring distance adjacent / one node between / farther, with or without a failed attempt), for executions with a completed join/leave and a non-empty checked history; plus directed hook-ordered schedules: after a leave the first Notify reaching the successor is held between its ping and its apply while a second Notify repairs the pointer and a node joins in between, then released (the predecessor pointer must not move back; a write through the successor for a key of the joiner must be visible through its neighbours); and a periodic stabilize round held between computing and storing its list while a join's advisory round stores the newer list, then released (the successor pointer must not move back)")
 	r.Assume("operations that ended with a retryable error are removed from the history: if one took effect, a later read observes a value no remaining write produced and porcupine rejects the history")
 	r.Assume("ErrKVSimpleConflict on Put/Delete is a failed CAS without effect; ErrKVPrefixConflict is the duplicate-child outcome of PrefixAppend")
 	rng := r.Rand("cases")
@@ -207,10 +213,10 @@ func main() {
 	batch.Run(r, "cases", args, par, 25*time.Minute, func(inflight, head string) string { return "crash:" + head })
 	// directed schedules: a Notify held between its ping and its apply while a join completes
 	drng := r.Rand("directed")
-	nd := r.Pick(12, 96)
+	nd := r.Pick(16, 128)
 	dbatches := make([][]directedCase, min(par, nd))
 	for i := 0; i < nd; i++ {
-		c := directedCase{Name: fmt.Sprintf("directed-%d", i), Seed: drng.Int63(), NetV: i%2 == 1, Backend: []int{int(ringlab.Memory), int(ringlab.Memory), int(ringlab.AOF), int(ringlab.SQLite)}[i%4]}
+		c := directedCase{Name: fmt.Sprintf("directed-%d", i), Seed: drng.Int63(), NetV: i%2 == 1, Backend: []int{int(ringlab.Memory), int(ringlab.Memory), int(ringlab.AOF), int(ringlab.SQLite)}[i%4], Kind: (i / 2) % 2}
 		if r.WantCase(c.Name) {
 			dbatches[i%len(dbatches)] = append(dbatches[i%len(dbatches)], c)
 		}
